@@ -865,7 +865,7 @@ class InterleaveInvariant:
             c.assume(g)
 
 
-@script(["C16"], "Assertion.interleave_values/post (loop invariant, unbounded)")
+@script(["C16"], "Assertion.interleave_values/post (loop invariant, unbounded)", optional=True)
 def interleave_values_post(S, I, variant):
     ns = S.integer("n_small", lo=0)
     nm = S.integer("n_med", lo=0)
@@ -1059,7 +1059,7 @@ def lazy_assorter(S, I, con, u_a, means):
 
 
 @script(["C06", "C07"], "Assertion.mvrs_to_data/comparison (unbounded number of sampled cards)",
-        variants=tuple((s, a) for s in ("style", "nostyle") for a in ("all", "thr")))
+        variants=tuple((s, a) for s in ("style", "nostyle") for a in ("all", "thr")), optional=True)
 def mvrs_to_data_unbounded(S, I, variant):
     use_style = variant[0] == "style"
     use_all = variant[1] == "all"
@@ -1100,7 +1100,7 @@ def mvrs_to_data_unbounded(S, I, variant):
         S.holds("0 <= value <= u", band(xcmp(">=", val, ZERO), xcmp("<=", val, u)))
 
 
-@script(["C06"], "Assertion.mvrs_to_data/polling (unbounded number of sampled cards)")
+@script(["C06"], "Assertion.mvrs_to_data/polling (unbounded number of sampled cards)", optional=True)
 def mvrs_to_data_polling_unbounded(S, I, variant):
     c = ctx()
     N = S.integer("n_sampled", lo=0)
